@@ -90,6 +90,7 @@ type Model struct {
 	nDeliv  int
 	bufCap  int
 	curCtx  *StepCtx
+	perioTaint bool // a URR was registered twice / its trigger changed: outside C15's quantifier
 }
 
 type bufPkt struct {
@@ -579,7 +580,10 @@ func (m *Model) applyRules(x *MSess, in *MsgIntent, ctx *StepCtx) {
 			x.Intent[ref] = r
 			u := &MURR{ID: r.ID}
 			if old, ok := x.URR[r.ID]; ok {
-				// duplicate create: outside what C11/C12 quantify over
+				// duplicate create: outside what C11/C12/C15 quantify over
+				if old.Perio || r.perio() {
+					m.perioTaint = true
+				}
 				u.SeqTaint = true
 				u.Taint = true
 				u.NextSeq = old.NextSeq
